@@ -109,17 +109,23 @@ pub struct Progress {
 
 pub static PROGRESS: Mutex<Option<Progress>> = Mutex::new(None);
 
+/// Where replays and evidence go: /verif, unless VERIF_OUT_DIR says otherwise (used by the mutation lab,
+/// which runs a scratch copy of the harness against a scratch copy of the repository).
+pub fn out_dir() -> String {
+    std::env::var("VERIF_OUT_DIR").unwrap_or_else(|_| "/verif".to_string())
+}
+
 pub fn write_replay(prop: &str, unit: &str, sig: &str, detail: &str, payload: Value) -> String {
-    let _ = std::fs::create_dir_all("/verif/replays");
+    let _ = std::fs::create_dir_all(format!("{}/replays", out_dir()));
     let safe: String = format!("{}-{}", unit, sig).chars().map(|c| if c.is_ascii_alphanumeric() || c == '-' || c == '_' { c } else { '_' }).take(80).collect();
-    let path = format!("/verif/replays/{}-{}-{:08x}.json", prop, safe, hash_str(&format!("{}{}{}", unit, sig, payload)) as u32);
+    let path = format!("{}/replays/{}-{}-{:08x}.json", out_dir(), prop, safe, hash_str(&format!("{}{}{}", unit, sig, payload)) as u32);
     let doc = json!({ "property": prop, "unit": unit, "signature": sig, "detail": detail, "replay": payload });
     let _ = std::fs::write(&path, serde_json::to_string_pretty(&doc).unwrap());
     path
 }
 
 pub fn write_evidence(p: &Progress) {
-    let _ = std::fs::create_dir_all("/verif/evidence");
+    let _ = std::fs::create_dir_all(format!("{}/evidence", out_dir()));
     let seed: i64 = std::env::var("VERIF_SEED").ok().and_then(|s| s.parse().ok()).unwrap_or(0);
     let doc = json!({
         "property_id": p.prop,
@@ -147,7 +153,7 @@ pub fn write_evidence(p: &Progress) {
         "wall_s": p.start.elapsed().as_secs_f64(),
         "violations": p.violations,
     });
-    let path = format!("/verif/evidence/{}.json", p.prop);
+    let path = format!("{}/evidence/{}.json", out_dir(), p.prop);
     let tmp = format!("{}.tmp", path);
     let _ = std::fs::write(&tmp, serde_json::to_string_pretty(&doc).unwrap());
     let _ = std::fs::rename(&tmp, &path);
@@ -262,11 +268,17 @@ pub fn run_property(prop: &str, tier: &str, units: Vec<Unit>, threads: usize, on
     start_watchdog();
     let mut exit = 0;
     let mut printed_known: std::collections::BTreeSet<String> = Default::default();
+    let stop_at_first = std::env::var("VERIF_STOP_AT_FIRST").is_ok();
     for u in units {
         if let Some(o) = only_unit {
             if u.name != o {
                 continue;
             }
+        }
+        if stop_at_first && PROGRESS.lock().unwrap().as_ref().unwrap().violations > 0 {
+            // mutation lab only: one violation is all it wants to know
+            PROGRESS.lock().unwrap().as_mut().unwrap().exhaustive = false;
+            break;
         }
         PROGRESS.lock().unwrap().as_mut().unwrap().current_unit = u.name.clone();
         let is_known = |sig: &str| known.is_known(prop, sig).is_some();
